@@ -156,7 +156,7 @@ structure RSt where
   tm : List (Option Nat) := []
   deriving Repr, Inhabited
 
-def RSt.alloc (s : RSt) (o : Obj) : Nat × RSt := (s.heap.length, { s with heap := s.heap ++ [o] })
+def RSt.alloc (s : RSt) (o : Obj) : Nat × RSt := (s.heap.length, { s with heap := s.heap ++ [o], tm := s.tm ++ [none] })
 def RSt.set (s : RSt) (k : Path) (v : Nat) : RSt := { s with memo := (k, v) :: s.memo }
 
 /-- `h5_file["a/b/c"]` -/
